@@ -309,6 +309,9 @@ func VH_C09_batches() {
 		vhWriteCmd(s, "SET", names[c], "zz", "EX", "1000", "POINT", "3", "3")
 	}
 	vhWriteCmd(s, "SETCHAN", "ch", "WITHIN", "a", "FENCE", "BOUNDS", "0", "0", "1", "1")
+	// hooks and channels with metas and expirations
+	vhWriteCmd(s, "SETHOOK", "hk", "http://h/,http://h2/", "META", "owner", "me", "META", "area", "x y", "EX", "1000", "WITHIN", "a", "FENCE", "DETECT", "enter,exit", "BOUNDS", "0", "0", "2", "2")
+	vhWriteCmd(s, "SETCHAN", "ch2", "META", "m", "1", "EX", "500", "NEARBY", "a", "FENCE", "POINT", "1", "1", "100")
 	live := vhSnapshot(s)
 	// a follower is attached: it streams from its own handle on the live file, which the rewrite replaces,
 	// so the rewrite must disconnect it (it then reconnects and resyncs)
